@@ -26,6 +26,7 @@ RULE = (
     "Oracle: model leading term under the reference order; reference ranking key (order_key(leading exponent), leading "
     "coefficient) with ties free. non-trivial = >= 2 elements share a leading exponent, or some element is zero."
 )
+LEVEL_TEXT += (" The reference ranks monomials by indeterminate index whatever the storage order of the names; polynomials with unordered name tuples are generated.")
 ASSUMPTIONS = [
     "ties of the ranking key (equal leading exponent and coefficient) may come in any order",
     "amax/amin with axis= are a known finding (see C11) and are only exercised without axis here",
